@@ -103,6 +103,7 @@ def _where(e):
 
 
 GRAPH = {}        # delivery edges canon -> set(canon), filled by apply (per shard process)
+CTL = {"viol": 0, "pendcap": False}   # search control: stop expanding once 20 violating transitions were seen
 OUT = set()       # outcome classes seen by apply (refused requests do not create new states, so on_state misses them)
 
 
@@ -153,6 +154,8 @@ def apply(st, ev):
 
 def enabled(st):
     evs = []
+    if CTL["viol"] >= 20:
+        return evs
     budget = st.cfg.get("budget")
     if budget is None or st.effective < budget:
         for side in (0, 1):
@@ -162,6 +165,11 @@ def enabled(st):
                     if kind == "will" and opt not in e.acc_local:
                         continue
                     if kind == "do" and opt not in e.acc_remote:
+                        continue
+                    if sum(1 for r in st.reqs if r["fired"] == 0 and r["side"] == side and r["opt"] == oi) >= 2:
+                        # never on the unchanged tree (a second request is refused on the spot); keeps the space
+                        # finite when a faulty endpoint lets unanswered requests pile up
+                        CTL["pendcap"] = True
                         continue
                     evs.append(("req", side, kind, oi))
     for d in (0, 1):
@@ -184,6 +192,13 @@ def canon(st):
 
 
 def invariant(st, hist):
+    out = _invariant(st, hist)
+    if out:
+        CTL["viol"] += 1
+    return out
+
+
+def _invariant(st, hist):
     out = list(st.errors)
     for r in st.reqs:
         if r["fired"] > 1:
@@ -253,6 +268,7 @@ def shards(tier, seed):
 def run_shard(cfg, tier, seed):
     GRAPH.clear()
     OUT.clear()
+    CTL.update(viol=0, pendcap=False)
     stats = Stats()
     hist_of = {}
 
@@ -270,6 +286,9 @@ def run_shard(cfg, tier, seed):
         stats.exhaustive = False
         stats.notes.append("C39: depth bound %d reached for %r (no fixpoint)" % (cfg["depth"], cfg["pol"]))
     stats.counters["depth_max"] = res.max_depth
+    if CTL["viol"] >= 20 or CTL["pendcap"]:
+        stats.exhaustive = False
+        stats.notes.append("C39: search cut short for %r (%s)" % (cfg["pol"], "20 violating transitions" if CTL["viol"] >= 20 else "more than 2 unanswered requests per side and option"))
     for o in OUT:
         stats.outcome(o)
     node = find_cycle(GRAPH)
@@ -286,8 +305,11 @@ def replay(w):
     st = St(cfg)
     GRAPH.clear()
     for ev in w["history"]:
+        if ev[0] == "dlv" and not st.q[ev[1]]:
+            return []          # the recorded history is not executable on this tree: not reproduced
         apply(st, tuple(ev))
-    out = list(invariant(st, w["history"]))
+    out = list(_invariant(st, w["history"]))
+    CTL.update(viol=0, pendcap=False)
     if w.get("cycle"):
         # explore deliveries only from here, look for a cycle
         hist0 = [tuple(e) for e in w["history"]]
